@@ -596,7 +596,13 @@ func execHybrid(c hyCase, x *verifkit.Ctx, c15 bool) (fail *verifkit.Failure) {
 				model[st.K] = &hyModel{val: wv} // deadline left open (it depends on whether the Set found the promoted entry)
 			}
 			if _, f := read(st.K); f != nil {
-				f.Sig += "/after-write-during-promotion"
+				// Delete variant: the key must be gone. Set variant: an older value here can also be known
+				// finding C14-stale-copy striking at once (the promoted entry, re-written in place, is
+				// evicted without write-back before the read): the signature is left as it is, so it is
+				// attributed to that finding while it is listed
+				if st.N == 0 {
+					f.Sig += "/after-write-during-promotion"
+				}
 				return f
 			}
 			if st.N == 1 {
